@@ -10,14 +10,24 @@ from common import q, z, b, lst, opt, pair
 MIN_INT, MAX_INT = -32768, 32767
 
 # ----------------------------------------------------------------------------- build
-def mk_poly(M, bnds, var_ids=None, idx_ids=None):
-    """M: list of rows [b, a1..an]; bnds: [(lo,hi)] per column of A."""
+def mk_poly(M, bnds, var_ids=None, idx_ids=None, narrow=False):
+    """M: list of rows [b, a1..an]; bnds: [(lo,hi)] per column of A.  narrow=True stores the matrix in the narrowest
+    (deterministically chosen among those that fit) integer dtype that holds every entry exactly."""
     n = len(bnds)
     var_ids = var_ids or ["0"] + ["v%d" % j for j in range(n)]
     idx_ids = idx_ids or ["r%d" % i for i in range(len(M))]
     vs = [puan.variable(var_ids[0], (1, 1))] + [puan.variable(var_ids[j + 1], tuple(bnds[j])) for j in range(n)]
     ix = [puan.variable(i, (0, 1)) for i in idx_ids]
     arr = np.array(M, dtype=np.int64).reshape(len(M), n + 1)
+    if narrow and M:
+        flat = [v for r in M for v in r]
+        lo, hi = min(flat), max(flat)
+        cands = [np.int64]
+        if lo >= -2 ** 31 and hi < 2 ** 31: cands.append(np.int32)
+        if lo >= -2 ** 15 and hi < 2 ** 15: cands.append(np.int16)
+        if lo >= -128 and hi < 128: cands.append(np.int8)
+        dt = narrow if narrow is not True else cands[(sum(flat) + len(flat)) % len(cands)]
+        return pnd.ge_polyhedron(arr.astype(dt), variables=vs, index=ix, dtype=dt)
     return pnd.ge_polyhedron(arr, variables=vs, index=ix)
 
 def poly_lists(P):
@@ -290,13 +300,32 @@ def points_dtype(pts, salt=0):
         if hi < 256: cands.append(np.uint8)
     return cands[(sum(vals) + len(vals) + salt) % len(cands)]
 
-def np_points(pts, n, rank):
+def np_points(pts, n, rank, dtype=None):
     a = np.array(pts, dtype=np.int64)
     if rank == 2:
         a = a.reshape(len(pts), n)
     elif rank == 3:
         a = a.reshape(len(pts), len(pts[0]) if pts else 0, n)
-    return a.astype(points_dtype(pts))
+    return a.astype(dtype or points_dtype(pts))
+
+def _flat(x):
+    return [v for y in x for v in _flat(y)] if isinstance(x, (list, tuple)) else [x]
+
+def poly_and_points(M, bnds, pts, rank):
+    """the ge_polyhedron and the numpy point array for one case.  Storage types are a deterministic function of the
+    data (replays rebuild the same objects): when the data allow it, about half of the cases store BOTH the
+    polyhedron and the points in the same narrowest signed integer type that holds every entry exactly
+    (int8 / int16 / int32) -- the integers are the same, so the required answers are the same --, the rest pick
+    the two types independently."""
+    n = len(bnds)
+    vals = _flat(M) + _flat(pts) or [0]
+    lo, hi = min(vals), max(vals)
+    common = np.int8 if (lo >= -128 and hi < 128) else np.int16 if (lo >= -2 ** 15 and hi < 2 ** 15) \
+        else np.int32 if (lo >= -2 ** 31 and hi < 2 ** 31) else None
+    if common is not None and M and (sum(vals) + len(vals)) % 2 == 0:
+        P = mk_poly(M, bnds, narrow=common)
+        return P, np_points(pts, n, rank, dtype=common)
+    return mk_poly(M, bnds, narrow=True), np_points(pts, n, rank)
 
 # ----------------------------------------------------------------------------- fixed systems
 # Always run first (C11 / C12): the Coq non-vacuity examples, witnesses of the guards, past finds.
